@@ -380,7 +380,7 @@ def run(chk):
 						continue
 					if kind == "int" and n > 1 and rng.random() < 0.3:
 						vals[1] = 2.5 if vals[1] is not None else None     # promoted column: ints inside a float vector
-					name = rng.choice([None, None, "nm", "Value", "sum", "a b"])
+					name = rng.choice([None, None, "nm", "Value", "sum", "a b", "1st", "12", "1.5", "x" * 30, "é"])
 					chk.case("vector_truth", {"values": vals, "name": name, "limit": limit, "kind": kind,
 						"polluter": rng.choice([None, None, "empty-peek", "zero-col-override", "table-override", "vector-long", "failing"])}, "vector-truth")
 	# ---- truthfulness: tables
